@@ -12,6 +12,7 @@ W=/tmp/wt-$P
 [ "$SUF" = "g" ] && W=/tmp/w7-$P
 [ "$SUF" = "h" ] && W=/tmp/w8-$P
 [ "$SUF" = "i" ] && W=/tmp/w9-$P
+[ "$SUF" = "j" ] && W=/tmp/w10-$P
 cd "$W" || exit 2
 [ -f SEEDED/patch.diff ] || { echo "no patch.diff"; exit 2; }
 # git stash is shared between worktrees (agents ran concurrently): start from a clean src and apply the recorded patch
